@@ -21,8 +21,8 @@ IO_SCENARIOS = ["rd_ready", "rd_park", "rd_eagain_fault", "rd_short", "rd_cancel
 class IoPart(AtomicPart):
     def __init__(self, name, model, scenarios):
         super().__init__(name, "scn_c14.cpp", LIBS, model, scenarios, extra_srcs=["rt_io.cpp"],
-                         quick=dict(preemptions=2, max_execs=1000), thorough=dict(preemptions=3, max_execs=40000),
-                         random_execs=(100, 3000), on_runs=self.collect)
+                         quick=dict(preemptions=2, max_execs=2000), thorough=dict(preemptions=3, max_execs=60000),
+                         random_execs=(200, 5000), on_runs=self.collect)
 
     def collect(self, scn, runs, cov):
         fc = cov.setdefault("syscall_faults_fired", {})
